@@ -60,7 +60,7 @@ func scoreInf(s string) int {
 // after the command, preLen the length the addressed list had before the
 // command as the harness read it (-1: not known, e.g. inside a batch).
 func knownShape(args []string, want interface{}, st *model.Store, pre preState, engine string) string {
-	preLen := pre.listLen
+	_ = pre.listLen
 	name := args[0]
 	a := args[1:]
 	if model.MultiKey(name) {
@@ -72,38 +72,11 @@ func knownShape(args []string, want interface{}, st *model.Store, pre preState, 
 	}
 	// score arguments
 	switch name {
-	case "zadd":
-		for i := 1; i+1 < len(a); i += 2 {
-			if strings.EqualFold(a[i], "nan") {
-				return "nan-score-accepted"
-			}
-		}
-	case "zincrby":
-		if (len(a) == 3 && strings.EqualFold(a[1], "nan")) || isErr(want, "nan") {
-			return "nan-score-accepted"
-		}
-		if len(a) == 3 {
-			// the new score equals the old one (increment 0, or the member
-			// already sits at an infinity the increment cannot move)
-			if f, err := strconv.ParseFloat(a[1], 64); err == nil && !math.IsNaN(f) {
-				switch {
-				case f == 0:
-					return "zincrby-unchanged-score-drops-member-from-score-index"
-				case !pre.known && !math.IsInf(f, 0):
-					// inside a batch the old score is not known
-					return "zincrby-unchanged-score-drops-member-from-score-index"
-				case pre.known && pre.zhad && math.IsInf(pre.zscore, 0) && pre.zscore+f == pre.zscore:
-					return "zincrby-unchanged-score-drops-member-from-score-index"
-				}
-			}
-		}
+	// (ZADD/ZINCRBY with NaN and ZINCRBY leaving the score unchanged were
+	// recorded deviations; repaired in /repo (dce9135, f3f6abd), so their shapes
+	// are judged like everything else)
 	case "zrangebyscore", "zrevrangebyscore", "zcount", "zremrangebyscore":
 		if len(a) >= 3 {
-			for _, b := range a[1:3] {
-				if strings.EqualFold(strings.TrimPrefix(b, "("), "nan") {
-					return "nan-score-accepted"
-				}
-			}
 			for _, b := range a[1:3] {
 				if scoreInf(b) != 0 && !strings.EqualFold(b, "-inf") && !strings.EqualFold(b, "+inf") {
 					return "score-range-inf-accepted-only-as-minus-inf-or-plus-inf"
@@ -111,58 +84,15 @@ func knownShape(args []string, want interface{}, st *model.Store, pre preState, 
 			}
 		}
 	}
+	// (repeated members/fields inside one command and LTRIM before the head
+	// were recorded deviations; repaired in /repo (831f444, 4198947))
 	switch name {
-	case "hmset":
-		if len(a) >= 5 && len(a)%2 == 1 {
-			var fs []string
-			for i := 1; i < len(a); i += 2 {
-				fs = append(fs, a[i])
-			}
-			if dupIn(fs) {
-				return "hmset-duplicate-field-counted-twice"
-			}
-		}
-	case "hdel":
-		if len(a) > 2 && dupIn(a[1:]) {
-			return "hdel-duplicate-field-counted-twice"
-		}
 	case "spop", "srandmember":
 		if len(a) == 2 && a[1] == "0" {
 			return "spop-srandmember-count-zero-is-an-error"
 		}
-	case "ltrim":
-		// start and stop both lie before the head of a non-empty list
-		if len(a) == 3 {
-			b, err1 := strconv.ParseInt(a[1], 10, 64)
-			e, err2 := strconv.ParseInt(a[2], 10, 64)
-			if err1 == nil && err2 == nil && b < 0 && e < 0 && (preLen < 0 || (preLen > 0 && b+int64(preLen) < 0 && e+int64(preLen) < 0)) {
-				return "ltrim-range-before-head-errors-and-corrupts-the-list"
-			}
-		}
 	}
 	switch name {
-	case "sadd":
-		if len(a) > 2 && dupIn(a[1:]) {
-			return "sadd-duplicate-member-counted-twice"
-		}
-	case "srem":
-		if len(a) > 2 && dupIn(a[1:]) {
-			return "srem-duplicate-member-counted-twice"
-		}
-	case "zrem":
-		if len(a) > 2 && dupIn(a[1:]) {
-			return "zrem-duplicate-member-counted-twice"
-		}
-	case "zadd":
-		if len(a) >= 5 && len(a)%2 == 1 {
-			var ms []string
-			for i := 2; i < len(a); i += 2 {
-				ms = append(ms, a[i])
-			}
-			if dupIn(ms) {
-				return "zadd-duplicate-member-in-one-command"
-			}
-		}
 	case "decr", "decrby":
 		return "decr-documented-but-not-registered"
 	case "getrange":
@@ -233,21 +163,12 @@ func knownShape(args []string, want interface{}, st *model.Store, pre preState, 
 			if _, bad := want.(model.Err); !bad && (a[1] == "+" || a[2] == "-") {
 				return "lex-range-with-plus-as-min-or-minus-as-max-is-an-error"
 			}
-			// mem (radix) engine only: seeking to an existing key that starts
-			// with 0x00 right after another existing key that is its proper
-			// prefix (here: the empty member) lands behind it
-			if engine == "mem" && strings.HasPrefix(a[1], "[\x00") && st != nil {
-				if z := st.ZSet[a[0]]; z != nil {
-					_, hasEmpty := z[""]
-					_, hasMin := z[a[1][1:]]
-					if name == "zremrangebylex" {
-						// the model has already removed them
-						hasEmpty, hasMin = true, true
-					}
-					if hasEmpty && hasMin {
-						return "memradix-nul-extended-key-seek"
-					}
-				}
+			// mem (radix) engine only (engsim's C20 finding): a seek goes wrong
+			// when a stored key P followed by 0x00 is a prefix of another stored
+			// key or of the seek target; here P is a member of the sorted set
+			// (possibly the empty one) and the other key a member or a bound
+			if engine == "mem" && nulExtended(pre.zmembers, a[1], a[2]) {
+				return "memradix-nul-extended-key-seek"
 			}
 		}
 	}
@@ -296,10 +217,11 @@ func damaging(key string) bool {
 // preState: ground truth read by the harness before a single command, used
 // only to recognise the shapes of recorded deviations.
 type preState struct {
-	known   bool
-	listLen int // -1: not known
-	zhad    bool
-	zscore  float64
+	zmembers []string // members of the addressed sorted set before a lexicographic range command (from the model)
+	known    bool
+	listLen  int // -1: not known
+	zhad     bool
+	zscore   float64
 }
 
 // batchable: the write commands the state machine collects into one shared
@@ -317,6 +239,11 @@ func batchable(args []string) bool {
 // laterFailingSetex: a SETEX whose expire time is only rejected when it is
 // applied (it is not validated before it is proposed).
 func laterFailingSetex(cmds [][]string) bool {
+	// repaired in /repo (redo of the aborted batch): a failing SETEX no longer
+	// takes its neighbours down, neither live nor on replay
+	if true {
+		return false
+	}
 	for _, a := range cmds {
 		if a[0] == "setex" && len(a) == 4 {
 			if n, err := strconv.ParseInt(a[2], 10, 64); err != nil || n <= 0 {
@@ -340,7 +267,8 @@ func slowCmd(name string) bool {
 }
 
 func panicShape(args []string) string {
-	if slowCmd(args[0]) {
+	// repaired in /repo (f493c67: the label is made valid UTF-8)
+	if false && slowCmd(args[0]) {
 		if len(args) > 1 {
 			if i := strings.IndexByte(args[1], ':'); i > 0 && !utf8.ValidString(args[1][:i]) {
 				return "non-utf8-table-name-panics-in-slow-write-metrics"
@@ -348,4 +276,24 @@ func panicShape(args []string) string {
 		}
 	}
 	return ""
+}
+
+// nulExtended: some member P of ms, followed by 0x00, is a prefix of another
+// member or of one of the range bounds.
+func nulExtended(ms []string, bounds ...string) bool {
+	var others []string
+	others = append(others, ms...)
+	for _, b := range bounds {
+		if len(b) > 0 && (b[0] == '[' || b[0] == '(') {
+			others = append(others, b[1:])
+		}
+	}
+	for _, p := range ms {
+		for _, o := range others {
+			if o != p && strings.HasPrefix(o, p+"\x00") {
+				return true
+			}
+		}
+	}
+	return false
 }
